@@ -20,11 +20,14 @@ import (
 type ErrUnknownIdentifier struct {
 	ID  string
 	Err error
+	// receiver: the name is what a method was called on (errors.HasAny())
+	receiver bool
 }
 
 func (e *ErrUnknownIdentifier) Error() string {
+	// (read-only: one error value may be looked at by several goroutines)
 	if e.Err == nil {
-		e.Err = fmt.Errorf("unknown identifier")
+		return fmt.Sprintf("%q: unknown identifier", e.ID)
 	}
 	return fmt.Sprintf("%q: %s", e.ID, e.Err)
 }
@@ -897,7 +900,9 @@ func isUnknownName(exp ast.Expression, err error) bool {
 		for root != nil && root.Callee != nil {
 			root = root.Callee
 		}
-		return root != nil && !root.Synthetic && root.Value == unknown.ID
+		// (the same name unknown somewhere in an argument, or in the body of a
+		// function that is called there, is not the receiver)
+		return unknown.receiver && root != nil && !root.Synthetic && root.Value == unknown.ID
 	}
 	return false
 }
@@ -1059,6 +1064,10 @@ func (c *compiler) evalCallExpression(node *ast.CallExpression) (interface{}, er
 	if node.Callee != nil {
 		c, err := c.evalExpression(node.Callee)
 		if err != nil {
+			if u, ok := err.(*ErrUnknownIdentifier); ok {
+				// there is nothing to call the method on
+				err = &ErrUnknownIdentifier{ID: u.ID, Err: u.Err, receiver: true}
+			}
 			return nil, err
 		}
 
